@@ -206,6 +206,133 @@ func runC14Full(seed uint64) (violation string, t *Trial, blockedAt int64) {
 	return "", t, blockedAt
 }
 
+// runC14InvAll: an InvalidateAll that inherits a nearly full write buffer. An iteration holds the eviction lock;
+// an InvalidateAll queues behind it (the first and only waiter); writers publish almost as many events as the
+// write buffer holds - all of them return, none finds the buffer full, the status says "required" -; then the
+// iteration lets go, InvalidateAll takes the lock over and drains the buffer, while late writers keep publishing
+// for a moment, so that more events pass through that one drain than the buffer holds. InvalidateAll is a lock
+// holder that is not the maintenance run: whatever it does with the buffer, once everything returned and every
+// executor goroutine finished the status must be idle and the buffer empty, without a further call.
+func runC14InvAll(seed uint64) (violation string, t *Trial, published int64, takeover bool) {
+	r := core.NewRng(seed)
+	capEvents := 128 * roundUpPow2(procsAtStart)
+	writers := 2 + r.Intn(5)
+	early := capEvents - 4 - r.Intn(60)
+	late := 2 + r.Intn(5)
+	lateEach := 20 + r.Intn(300)
+	hold := time.Duration(1500+r.Intn(1500)) * time.Microsecond
+	keyspace := 1 + r.Intn(3000)
+	cfg := TrialCfg{Prop: "C14", Seed: seed, SizeKind: 1, Max: uint64(64 + r.Intn(8000)), Exec: ExecDefault, G: writers + late + 2, Ops: (early+late*lateEach)/writers + 2, Keys: 4000}
+	t, err := NewTrial(cfg)
+	if err != nil {
+		return "cannot build: " + err.Error(), nil, 0, false
+	}
+	otter.VerifSetHook(t.hook)
+	defer otter.VerifSetHook(nil)
+	c := t.Cache
+	for k := 0; k < 4; k++ {
+		c.Set(k, -1-k)
+	}
+	c.CleanUp()
+	t.wg.Wait()
+	var releasing atomic.Bool
+	var earlyDone sync.WaitGroup
+	earlyDone.Add(writers)
+	locked := make(chan struct{})
+	locked2 := make(chan struct{})
+	var xReturned atomic.Bool
+	var wg sync.WaitGroup
+	wg.Add(1)
+	go func() {
+		defer wg.Done()
+		iter := func() func(func(otter.Entry[int, int]) bool) {
+			if seed&1 == 1 {
+				return c.Coldest()
+			}
+			return c.Hottest()
+		}
+		// first iteration: the InvalidateAll queues behind it and waits for more than a millisecond
+		first := true
+		for range iter() {
+			if first {
+				first = false
+				close(locked)
+				time.Sleep(2 * time.Millisecond) // (workload shaping only)
+			}
+		}
+		// second iteration, started at once: the waiter wakes up to a lock that is taken again; from then on the
+		// lock is handed over to it directly when this iteration ends (no try-lock can slip in between)
+		first = true
+		for range iter() {
+			if first {
+				first = false
+				close(locked2)
+				earlyDone.Wait()
+				time.Sleep(hold)
+				releasing.Store(true)
+			}
+		}
+		if first { // (the InvalidateAll slipped in between the two iterations and emptied the cache)
+			close(locked2)
+			earlyDone.Wait()
+			releasing.Store(true)
+		}
+	}()
+	<-locked
+	wg.Add(1)
+	go func() {
+		defer wg.Done()
+		c.InvalidateAll()
+		xReturned.Store(true)
+		progress.Add(1)
+	}()
+	<-locked2
+	takeover = !xReturned.Load()
+	var issued atomic.Int64
+	for w := 0; w < writers; w++ {
+		wg.Add(1)
+		go func(w int) {
+			defer wg.Done()
+			defer earlyDone.Done()
+			for i := w; i < early; i += writers {
+				issued.Add(1)
+				c.Set(10+i%keyspace, i+1)
+				progress.Add(1)
+			}
+		}(w)
+	}
+	for w := 0; w < late; w++ {
+		wg.Add(1)
+		go func(w int) {
+			defer wg.Done()
+			for !releasing.Load() {
+			}
+			for i := 0; i < lateEach; i++ {
+				issued.Add(1)
+				c.Set(10+(w*lateEach+i)%keyspace, 1_000_000+w*lateEach+i)
+				progress.Add(1)
+			}
+		}(w)
+	}
+	wg.Wait()
+	t.wg.Wait()
+	if v := t.CheckAudit(c.VerifAudit(), true); v != "" {
+		return fmt.Sprintf("an InvalidateAll took the eviction lock over from an iteration with %d events in the write buffer (it holds %d) while %d late writers published %d more; after every call returned and every executor goroutine finished, without a further call: %s", early, capEvents, late, late*lateEach, v), t, issued.Load(), takeover
+	}
+	var atomicN, delN int
+	for _, e := range t.Events() {
+		if e.Atomic {
+			atomicN++
+		} else {
+			delN++
+		}
+	}
+	if !t.EventsLost() && atomicN != delN {
+		return fmt.Sprintf("an InvalidateAll took the eviction lock over from an iteration with a nearly full write buffer: %d values were reported to OnAtomicDeletion but only %d OnDeletion notifications were delivered without a further cache call", atomicN, delN), t, issued.Load(), takeover
+	}
+	return "", t, issued.Load(), takeover
+}
+
 // procsAtStart is GOMAXPROCS as the library saw it when it sized its write buffer (128 events per
 // processor, rounded up to a power of two); trials change GOMAXPROCS later.
 var procsAtStart = runtime.GOMAXPROCS(0)
@@ -247,6 +374,26 @@ func runC14PairsAll(col *core.Collector, tier, variant string, seed uint64, shar
 		if v != "" {
 			path := writeReplay(replayDir, fmt.Sprintf("C14-full-%x.json", cs), map[string]any{"engine": "c14-full", "case_seed": cs, "violation": v})
 			col.Violation(core.Violation{Property: "C14", Signature: "full:" + sigText(v), Detail: v, Replay: filepath.Clean(path)})
+		}
+	}
+	for i := 0; i < fulls*2 && col.NumViolations() < 6; i++ {
+		cs := core.Derive(seed, core.StrLabel("C14invall"), uint64(shard), uint64(i))
+		wd.Arm()
+		v, t, published, takeover := runC14InvAll(cs)
+		wd.Disarm()
+		col.Eval(1)
+		col.Count("invalidate_all_takeover.scenarios", 1)
+		col.Count("invalidate_all_takeover.writes", published)
+		if takeover {
+			col.Count("invalidate_all_takeover.scenarios_in_which_it_was_still_waiting_when_the_writes_began", 1)
+			col.NonTrivial(cs)
+		}
+		if t != nil {
+			t.Close()
+		}
+		if v != "" {
+			path := writeReplay(replayDir, fmt.Sprintf("C14-invall-%x.json", cs), map[string]any{"engine": "c14-invall", "case_seed": cs, "violation": v})
+			col.Violation(core.Violation{Property: "C14", Signature: "invall:" + sigText(v), Detail: v, Replay: filepath.Clean(path)})
 		}
 	}
 	for part := 0; part < 4 && col.NumViolations() < 6; part++ {
